@@ -3,9 +3,9 @@
    scalar value + every escape class); status strings round-trip and are injective; a whole
    envelope decodes to what was encoded, given that the payload scanner splits the payload's own
    encoding off the front (the named assumption on encoding/json). *)
+From Coq Require Import String Ascii.
 From Coq Require Import List NArith ZArith Bool Lia.
 From Coq Require Import ZifyN ZifyBool.
-From Coq Require Import String Ascii.
 From VQ Require Import Codec.
 Import ListNotations.
 Open Scope N_scope.
@@ -169,3 +169,299 @@ Proof.
   intros Vs Vt H. pose proof (dec_enc_string s [] Vs) as A. rewrite H, dec_enc_string in A by assumption.
   congruence.
 Qed.
+
+(* ------------------------------------------------------------------ the byte-level encoder *)
+
+(* appendString working on the raw UTF-8 bytes of a string does what enc_string does on its runes *)
+Lemma enc_bytes_loop_utf8 s : forall fuel,
+  Forall valid_scalar s -> (length (utf8_encode_all s) <= fuel)%nat ->
+  enc_bytes_loop fuel (utf8_encode_all s) = flat_map enc_cp s.
+Proof.
+  induction s as [|c s IH]; intros fuel V L.
+  - destruct fuel; reflexivity.
+  - inversion V as [|? ? Vc Vs]; subst. unfold utf8_encode_all in *. cbn [flat_map] in *.
+    unfold enc_cp at 1. destruct (c <? 128) eqn:E0.
+    + assert (He : utf8_encode c = [c]) by (unfold utf8_encode; rewrite E0; reflexivity).
+      rewrite He in *. cbn [app] in *.
+      destruct fuel; [cbn in L; lia|]. cbn [enc_bytes_loop]. rewrite E0.
+      rewrite IH by (auto; cbn in L; lia). reflexivity.
+    + destruct (utf8_decode_encode c (flat_map utf8_encode s) Vc) as (b0 & r & He & Hb & Hd); [lia|].
+      rewrite He in *. cbn [app] in *.
+      destruct fuel; [cbn in L; lia|]. cbn [enc_bytes_loop].
+      replace (b0 <? 128) with false by (symmetry; lia). rewrite Hd. cbn [negb].
+      rewrite IH; [destruct (is_linesep c); reflexivity | assumption |].
+      cbn in L. rewrite app_length in L. lia.
+Qed.
+
+Theorem enc_bytes_utf8 s :
+  Forall valid_scalar s -> enc_bytes (utf8_encode_all s) = enc_string s.
+Proof.
+  intros V. unfold enc_bytes, enc_string. rewrite enc_bytes_loop_utf8; auto.
+Qed.
+
+(* ------------------------------------------------------------------ envelope *)
+
+Lemma strip_prefix_app p r : strip_prefix p (p ++ r) = Some r.
+Proof. induction p as [|x p IH]; cbn; [reflexivity|]. rewrite N.eqb_refl. exact IH. Qed.
+
+Lemma status_string_valid st : Forall valid_scalar (status_string st).
+Proof. destruct st; repeat constructor. Qed.
+
+Section EnvelopeProofs.
+  Variable scan_payload : list byte -> option (list byte * list byte).
+
+  (* what json.Marshal produces for a payload value *)
+  Variable marshal_output : list byte -> Prop.
+
+  (* ASSUMPTION ON encoding/json (not verified here): the decoder, positioned at the start of a
+     payload that json.Marshal produced and that is followed by the closing brace of the envelope,
+     consumes exactly that payload. (json.Marshal emits one complete JSON value; the end of a JSON
+     value followed by a closing brace is unambiguous.) *)
+  Hypothesis scan_payload_splits_marshal_output :
+    forall p, marshal_output p -> scan_payload (p ++ [lit_close]) = Some (p, [lit_close]).
+
+  Theorem decode_encode_env id st payload :
+    Forall valid_scalar id -> marshal_output payload ->
+    decode_env scan_payload (encode_env id st payload) = Ok (id, st, payload).
+  Proof.
+    intros V M. unfold decode_env, encode_env.
+    rewrite strip_prefix_app, dec_enc_string by assumption.
+    rewrite strip_prefix_app, dec_enc_string by apply status_string_valid.
+    rewrite strip_prefix_app, scan_payload_splits_marshal_output by assumption.
+    unfold lit_close. rewrite N.eqb_refl, parse_status_string. reflexivity.
+  Qed.
+
+  (* Add followed by the consumer's decode: same ID, status Created, same payload bytes;
+     an unencodable payload produces no entry *)
+  Corollary submit_then_decode id payload :
+    Forall valid_scalar id -> marshal_output payload ->
+    exists entry, submit_entry id (Some payload) = Some entry /\
+                  decode_env scan_payload entry = Ok (id, Created, payload).
+  Proof.
+    intros V M. eexists; split; [reflexivity|]. apply decode_encode_env; assumption.
+  Qed.
+
+  Lemma submit_unencodable id : submit_entry id None = None.
+  Proof. reflexivity. Qed.
+
+  (* Isolation at the codec level: decoding is per entry and stateless, so an undecodable entry
+     between good ones changes neither the results for the others nor their order. *)
+  Theorem bad_entry_isolated before bad after :
+    consume_all scan_payload (before ++ bad :: after) =
+    consume_all scan_payload before ++ decode_env scan_payload bad :: consume_all scan_payload after.
+  Proof. unfold consume_all. rewrite map_app. reflexivity. Qed.
+
+  Corollary good_entries_survive jobs1 bad jobs2 :
+    Forall (fun j => Forall valid_scalar (fst (fst j)) /\ marshal_output (snd j)) (jobs1 ++ jobs2) ->
+    let enc := map (fun j => encode_env (fst (fst j)) (snd (fst j)) (snd j)) in
+    consume_all scan_payload (enc jobs1 ++ bad :: enc jobs2) =
+    map Ok jobs1 ++ decode_env scan_payload bad :: map Ok jobs2.
+  Proof.
+    intros H enc. rewrite bad_entry_isolated.
+    assert (G : forall js, Forall (fun j => Forall valid_scalar (fst (fst j)) /\ marshal_output (snd j)) js ->
+                           consume_all scan_payload (enc js) = map Ok js).
+    { induction js as [|[[i s] p] js IH]; intros F; [reflexivity|].
+      inversion F as [|? ? [A B] F']; subst. cbn [fst snd] in A, B.
+      unfold enc, consume_all in *. cbn [map fst snd].
+      rewrite decode_encode_env by assumption. f_equal. apply IH; assumption. }
+    apply Forall_app in H. destruct H as [H1 H2]. rewrite !G by assumption. reflexivity.
+  Qed.
+
+  (* an entry whose status string is none of the five is rejected with InvalidStatus, not decoded *)
+  Theorem unknown_status_rejected id sts payload :
+    Forall valid_scalar id -> Forall valid_scalar sts -> marshal_output payload ->
+    (forall st, sts <> status_string st) ->
+    decode_env scan_payload
+      (lit_open ++ enc_string id ++ lit_status ++ enc_string sts ++ lit_data ++ payload ++ [lit_close])
+    = Err InvalidStatus.
+  Proof.
+    intros V Vs M U. unfold decode_env.
+    rewrite strip_prefix_app, dec_enc_string by assumption.
+    rewrite strip_prefix_app, dec_enc_string by assumption.
+    rewrite strip_prefix_app, scan_payload_splits_marshal_output by assumption.
+    unfold lit_close. rewrite N.eqb_refl, parse_status_unknown by assumption. reflexivity.
+  Qed.
+End EnvelopeProofs.
+
+(* ------------------------------------------------------------------ arbitrary Go strings as IDs *)
+
+(* what utf8.DecodeRune consumed determines its result, whatever follows *)
+Lemma utf8_decode_shape b r c ok consumed rest :
+  utf8_decode b r = (c, ok, consumed, rest) ->
+  exists r', consumed = b :: r' /\ r = r' ++ rest /\
+             (ok = false -> c = fffd) /\
+             (ok = true -> forall tail, utf8_decode b (r' ++ tail) = (c, true, consumed, tail)).
+Proof.
+  unfold utf8_decode, bad1. intros H.
+  repeat match type of H with
+         | context [if ?x then _ else _] => destruct x eqn:?
+         | context [match ?l with [] => _ | _ :: _ => _ end] => destruct l
+         end;
+    inversion H; subst; clear H;
+    (eexists; split; [reflexivity|]; split; [reflexivity|]; split;
+     [intros; try discriminate; reflexivity
+     |intros; try discriminate; cbn [app];
+      repeat match goal with E : ?x = _ |- context [?x] => rewrite E end; reflexivity]).
+Qed.
+
+Lemma enc_ascii_nonempty b : (1 <= length (enc_ascii b))%nat.
+Proof.
+  unfold enc_ascii.
+  repeat match goal with |- context [if ?b then _ else _] => destruct b end; cbn; lia.
+Qed.
+
+Lemma runes_le_enc_bytes : forall fuel bs,
+  (length (runes_loop fuel bs) <= length (enc_bytes_loop fuel bs))%nat.
+Proof.
+  induction fuel as [|f IH]; intros bs; [reflexivity|].
+  destruct bs as [|b r]; [reflexivity|]. cbn [runes_loop enc_bytes_loop].
+  destruct (utf8_decode b r) as [[[c ok] consumed] rest'] eqn:D.
+  destruct (b <? 128) eqn:E.
+  - unfold utf8_decode in D. rewrite E in D. inversion D; subst.
+    cbn [length]. rewrite app_length. pose proof (enc_ascii_nonempty c). specialize (IH rest'). lia.
+  - apply utf8_decode_shape in D. destruct D as (r' & -> & _ & _ & _).
+    cbn [length]. rewrite app_length. specialize (IH rest').
+    destruct ok; cbn [negb]; [destruct (is_linesep c)|]; cbn; lia.
+Qed.
+
+Lemma dec_step_linesep c tail :
+  is_linesep c = true -> dec_step (esc_linesep c ++ tail) = DChar c tail.
+Proof.
+  unfold is_linesep. intros EL. assert (c = 8232 \/ c = 8233) as [-> | ->] by lia; reflexivity.
+Qed.
+
+Lemma dec_step_fffd tail : dec_step (esc_fffd ++ tail) = DChar fffd tail.
+Proof. reflexivity. Qed.
+
+Lemma dec_loop_enc_bytes : forall fuelE bs fuelD acc rest,
+  (length bs <= fuelE)%nat -> (length (runes_loop fuelE bs) < fuelD)%nat ->
+  dec_loop fuelD (enc_bytes_loop fuelE bs ++ 34 :: rest) acc
+  = Some (rev acc ++ runes_loop fuelE bs, rest).
+Proof.
+  induction fuelE as [|f IH]; intros bs fuelD acc rest L1 L2.
+  - destruct bs; [|cbn in L1; lia]. destruct fuelD; [cbn in L2; lia|].
+    cbn. rewrite app_nil_r. reflexivity.
+  - destruct bs as [|b r].
+    { destruct fuelD; [cbn in L2; lia|]. cbn. rewrite app_nil_r. reflexivity. }
+    cbn [runes_loop enc_bytes_loop] in *.
+    destruct (utf8_decode b r) as [[[c ok] consumed] rest'] eqn:D.
+    destruct fuelD as [|fd]; [cbn in L2; lia|]. cbn [length] in L1, L2.
+    assert (Hrev : forall t, rev (c :: acc) ++ t = rev acc ++ c :: t)
+      by (intros; cbn [rev]; rewrite <- app_assoc; reflexivity).
+    destruct (b <? 128) eqn:E.
+    + unfold utf8_decode in D. rewrite E in D. inversion D; subst.
+      cbn [dec_loop]. rewrite <- app_assoc, dec_step_ascii by lia.
+      rewrite IH by lia. rewrite Hrev; reflexivity.
+    + apply utf8_decode_shape in D. destruct D as (r' & -> & -> & Hbad & Hok).
+      rewrite app_length in L1. cbn [dec_loop]. rewrite <- app_assoc.
+      destruct ok; cbn [negb].
+      * destruct (is_linesep c) eqn:EL.
+        -- rewrite dec_step_linesep by assumption. rewrite IH by lia. rewrite Hrev; reflexivity.
+        -- cbn [app dec_step]. ifs. rewrite (Hok eq_refl).
+           rewrite IH by lia. rewrite Hrev; reflexivity.
+      * rewrite (Hbad eq_refl) in *.
+        rewrite dec_step_fffd.
+        rewrite IH by lia. rewrite Hrev; reflexivity.
+Qed.
+
+(* For ANY Go string used as ID (arbitrary bytes): the consumer sees []rune(id), i.e. the ID with
+   every byte of malformed UTF-8 replaced by U+FFFD ... *)
+Theorem dec_enc_bytes bs rest :
+  dec_string (enc_bytes bs ++ rest) = Some (runes_of_bytes bs, rest).
+Proof.
+  unfold enc_bytes, dec_string, runes_of_bytes. cbn [app]. rewrite N.eqb_refl.
+  rewrite <- app_assoc. cbn [app].
+  rewrite dec_loop_enc_bytes; [reflexivity | lia |].
+  rewrite app_length. pose proof (runes_le_enc_bytes (length bs) bs). cbn. lia.
+Qed.
+
+(* ... so an ID is preserved exactly when it is well-formed UTF-8 *)
+Corollary runes_of_utf8 s : Forall valid_scalar s -> runes_of_bytes (utf8_encode_all s) = s.
+Proof.
+  intros V. pose proof (dec_enc_bytes (utf8_encode_all s) []) as A.
+  rewrite enc_bytes_utf8, dec_enc_string in A by assumption. congruence.
+Qed.
+
+Example malformed_utf8_id_not_preserved :
+  dec_string (enc_bytes [105; 100; 255]) = Some ([105; 100; 65533], []) /\
+  utf8_encode_all [105; 100; 65533] = [105; 100; 239; 191; 189].
+Proof. vm_compute. split; reflexivity. Qed.
+
+(* ------------------------------------------------------------------ the assumption is satisfiable:
+   a closed instance for payloads that are unsigned decimal numerals *)
+
+Definition is_digit (b : byte) : bool := in_range 48 57 b.
+
+Fixpoint span_digits (bs : list byte) : list byte * list byte :=
+  match bs with
+  | b :: r => if is_digit b then let (d, rest) := span_digits r in (b :: d, rest) else ([], bs)
+  | [] => ([], [])
+  end.
+
+Definition scan_uint (bs : list byte) : option (list byte * list byte) :=
+  match span_digits bs with
+  | ([], _) => None
+  | (d, r) => Some (d, r)
+  end.
+
+Definition uint_literal (p : list byte) : Prop := p <> [] /\ forallb is_digit p = true.
+
+Lemma scan_uint_splits p : uint_literal p -> scan_uint (p ++ [lit_close]) = Some (p, [lit_close]).
+Proof.
+  intros [NE D]. unfold scan_uint.
+  assert (S : span_digits (p ++ [lit_close]) = (p, [lit_close])).
+  { clear NE. induction p as [|b p IH]; [reflexivity|].
+    cbn in D. apply andb_true_iff in D. destruct D as [Db Dp].
+    cbn. rewrite Db, (IH Dp). reflexivity. }
+  rewrite S. destruct p; [congruence | reflexivity].
+Qed.
+
+Theorem decode_encode_env_uint id st payload :
+  Forall valid_scalar id -> uint_literal payload ->
+  decode_env scan_uint (encode_env id st payload) = Ok (id, st, payload).
+Proof. intros. apply (decode_encode_env scan_uint uint_literal scan_uint_splits); assumption. Qed.
+
+(* ------------------------------------------------------------------ examples (vm_compute) *)
+
+(* id = a, quote, b, backslash, c, <, d, U+2028, U+1F600 (emoji), U+0000, e-acute, DEL *)
+Example ex_enc_string :
+  enc_string [97; 34; 98; 92; 99; 60; 100; 8232; 128512; 0; 233; 127]
+  = codes_of_string """a\""b\\c\u003cd\u2028" ++ [240; 159; 152; 128]
+    ++ codes_of_string "\u0000" ++ [195; 169; 127; 34].
+Proof. vm_compute. reflexivity. Qed.
+
+Example ex_dec_enc_string :
+  dec_string (enc_string [97; 34; 98; 92; 99; 60; 100; 8232; 128512; 0; 233; 127] ++ [44; 34])
+  = Some ([97; 34; 98; 92; 99; 60; 100; 8232; 128512; 0; 233; 127], [44; 34]).
+Proof. vm_compute. reflexivity. Qed.
+
+Example ex_empty_id : enc_string [] = [34; 34] /\ dec_string [34; 34; 125] = Some ([], [125]).
+Proof. vm_compute. split; reflexivity. Qed.
+
+(* an escaped surrogate pair is one rune, a lone surrogate escape is U+FFFD, slash may be escaped *)
+Example ex_surrogates :
+  dec_string (codes_of_string """\ud83d\ude00\ud800x\/""") = Some ([128512; 65533; 120; 47], []).
+Proof. vm_compute. reflexivity. Qed.
+
+(* rejected: a raw control character, an unknown escape (the quote-escape of Go syntax), an
+   incomplete \u escape, an unterminated literal *)
+Example ex_rejected :
+  dec_string [34; 10; 34] = None /\
+  dec_string (codes_of_string """\'""") = None /\
+  dec_string (codes_of_string """\u12G4""") = None /\
+  dec_string (codes_of_string """abc") = None.
+Proof. vm_compute. repeat split. Qed.
+
+Example ex_envelope :
+  encode_env [106; 34; 49] Finished (codes_of_string "42")
+  = codes_of_string "{""id"":""j\""1"",""status"":""Finished"",""data"":42}" /\
+  decode_env scan_uint (encode_env [106; 34; 49] Finished (codes_of_string "42"))
+  = Ok ([106; 34; 49], Finished, codes_of_string "42").
+Proof. vm_compute. split; reflexivity. Qed.
+
+Example ex_bad_entries :
+  decode_env scan_uint (codes_of_string "{""id"":""a"",""status"":""Done"",""data"":1}") = Err InvalidStatus /\
+  decode_env scan_uint (codes_of_string "{""id"":""a"",""status"":""Queued"",""data"":1") = Err Malformed /\
+  decode_env scan_uint (codes_of_string "{""id"":7,""status"":""Queued"",""data"":1}") = Err Malformed /\
+  decode_env scan_uint (codes_of_string "{""id"":""a"",""status"":""Nope"",""data"":}") = Err Malformed.
+Proof. vm_compute. repeat split. Qed.
